@@ -51,7 +51,8 @@ CASE_TIMEOUT_S = 120
 
 CH_KINDS = ['cb_session', 'process', 'run', 'tcp', 'sftp', 'rforward']
 SRV = ['echo', 'exit_now', 'close_now', 'abort_now', 'hang', 'slow_open',
-       'flood_exit', 'flood_eof_close', 'stall_eof_close', 'stall_close']
+       'flood_exit', 'flood_eof_close', 'stall_eof_close', 'stall_close',
+       'close_in_exec', 'exit_in_exec', 'abort_in_exec']
 CLI_ACTS = ['write', 'write_big', 'eof', 'close', 'abort', 'read',
             'wait_closed', 'drain', 'settle', 'close_wait']
 ENDINGS = ['close', 'abort', 'peer_close', 'peer_disconnect', 'none',
@@ -91,6 +92,16 @@ def gen_cases(tier, seed):
                           'end_when': 'done', 'chunk': 'all',
                           'stride': 1 if tier == 'thorough' else 3,
                           'cseed': 13})
+    # directed: the server ends the channel from inside the request callback
+    for kind in ('run', 'process', 'cb_session', 'sftp'):
+        for srv in ('close_in_exec', 'exit_in_exec', 'abort_in_exec'):
+            cases.append({'chans': [{'kind': kind, 'srv': srv,
+                                     'acts': ['read'], 'window': None,
+                                     'pause': False}],
+                          'ending': 'close_then_wait', 'concurrent': True,
+                          'end_when': 'done', 'chunk': 'all',
+                          'stride': 1 if tier == 'thorough' else 3,
+                          'cseed': 16})
     # directed: a global request the application stops waiting for
     for ending in ('close_then_wait', 'peer_close', 'abort', 'none'):
         cases.append({'chans': [{'kind': 'rforward', 'srv': 'slow_open',
@@ -188,6 +199,34 @@ class _TCPEcho(asyncssh.SSHTCPSession):
         self.order.append('connection_lost')
 
 
+class _InExecSession(apps.RecServerSession):
+    """Ends the channel from inside the exec / shell / subsystem request
+       callback: the peer's CLOSE then arrives instead of the request reply,
+       before the client session has been started"""
+
+    def _end(self):
+        how = self.behaviour
+        if how == 'close_in_exec':
+            self.chan.close()
+        elif how == 'exit_in_exec':
+            self.chan.exit(1)
+        else:
+            self.chan.abort()
+        return True
+
+    def exec_requested(self, command):
+        self._cb('exec')
+        return self._end()
+
+    def shell_requested(self):
+        self._cb('shell')
+        return self._end()
+
+    def subsystem_requested(self, subsystem):
+        self._cb('subsystem')
+        return self._end()
+
+
 class _Srv(apps.RecServer):
     def __init__(self, ctx):
         super().__init__(ctx['log'])
@@ -211,6 +250,11 @@ class _Srv(apps.RecServer):
             ctx['sftp_sessions'] = ctx.get('sftp_sessions', 0) + 1
             from asyncssh.stream import SSHServerStreamSession
             return SSHServerStreamSession(None, asyncssh.SFTPServer, 3)
+        if beh.endswith('_in_exec'):
+            ctx['ssessions'].pop()
+            sess = _InExecSession(ctx['log'], f's{idx}')
+            ctx['ssessions'].append(sess)
+            sess.flood = []
         sess.behaviour = beh
         if beh.startswith('stall'):
             # a peer that stops reading behind a small window: the client's
@@ -291,6 +335,8 @@ async def _server_session_task(ctx, sess):
             chan.close()
         elif beh == 'abort_now':
             chan.abort()
+        elif beh.endswith('_in_exec'):
+            pass                    # everything happened in the callback
         elif beh == 'hang':
             await ctx['gate'].wait()
             if not sess.lost:
@@ -353,7 +399,8 @@ async def _client_channel(ctx, tr, conn, i, spec, rng):
 
     kind = spec['kind']
     if kind == 'sftp':
-        ctx['next_srv'].append('sftp')
+        ctx['next_srv'].append(spec['srv'] if spec['srv'].endswith('_in_exec')
+                               else 'sftp')
     elif kind not in ('tcp', 'rforward'):
         ctx['next_srv'].append((spec['srv'], spec.get('window')))
     data = 'x' * 50
